@@ -14,7 +14,7 @@ from .engines_common import Result
 FN = {1: "memset_s", 2: "memzero_s", 3: "memset16_s", 4: "memset32_s", 5: "memzero16_s", 6: "memzero32_s", 7: "strzero_s"}
 WIDTH = {1: 1, 2: 1, 3: 2, 4: 4, 5: 2, 6: 4, 7: 1}
 VALUE = {1: 0xA5, 2: 0, 3: 0xA5C3, 4: 0x65C3E1D2, 5: 0, 6: 0, 7: 0}
-STO = {"stack": 0, "heap": 1, "static": 2}
+STO = {"stack": 0, "heap": 1, "static": 2, "local": 3}
 HD = os.path.join(build.VERIF, "harness", "erase")
 
 
@@ -118,8 +118,8 @@ def run(prop, tier, seed, workdir):
         states=r["distinct"], transitions=r["states"], traces_validated_against_impl=len(events), evaluations=nv,
         distinct_nontrivial=len(cells),
         rule="Erase.tla: TLC explores every dead-store-elimination behaviour for plain / volatile stores with and without a barrier, callee visible (LTO) or not, and checks Safe "
-             "(erased unless plain, unguarded and visible; the exception is shown real by AlwaysErased failing); the matrix levels %s x links %s x 7 functions x {stack, heap-then-free, "
-             "static} x {run-time, compile-time constant} parameters is enumerated by TLC (%d cases over n in %s, offsets %s), compiled into %d client binaries (single call site each; LTO "
+             "(erased unless plain, unguarded and visible; the exception is shown real by AlwaysErased failing); the matrix levels %s x links %s x 7 functions x {stack (address handed to opaque code), heap-then-free, "
+             "static, stack never leaving the optimiser's view} x {run-time, compile-time constant} parameters is enumerated by TLC (%d cases over n in %s, offsets %s), compiled into %d client binaries (single call site each; LTO "
              "cells with the library rebuilt with -flto at the same level, the others with the library as shipped at -O2) and every run's out-of-band observation (after the frame is popped / "
              "when the block reaches free / at program end) is judged by TraceErase.tla: the addressed bytes hold the fill value, the 16 bytes in front and behind the secret. "
              "non-trivial = client binaries" % (levels, links, len(states), ns, offs, len(cells)),
